@@ -1508,8 +1508,36 @@ static void compile_expr(CG *cg, ASTNode *node) {
         break;
 
     case AST_STRING: {
-        uint32_t idx = nvm_add_string(cg->module, node->as.string_val,
-                                       (uint32_t)strlen(node->as.string_val));
+        /* The lexer keeps the raw source text of a string literal; the native
+         * backend hands it to the C compiler, which interprets the escape
+         * sequences.  Interpret the same sequences here so that "a\tb" is the
+         * same three-character string on both backends. */
+        const char *raw = node->as.string_val;
+        size_t raw_len = strlen(raw);
+        char *buf = malloc(raw_len + 1);
+        size_t n = 0;
+        if (!buf) { cg_error(cg, node->line, "out of memory"); break; }
+        for (size_t i = 0; i < raw_len; i++) {
+            if (raw[i] == '\\' && i + 1 < raw_len) {
+                i++;
+                switch (raw[i]) {
+                    case 'n': buf[n++] = '\n'; break;
+                    case 't': buf[n++] = '\t'; break;
+                    case 'r': buf[n++] = '\r'; break;
+                    case 'a': buf[n++] = '\a'; break;
+                    case 'b': buf[n++] = '\b'; break;
+                    case 'f': buf[n++] = '\f'; break;
+                    case 'v': buf[n++] = '\v'; break;
+                    case '0': buf[n++] = '\0'; break;
+                    default:  buf[n++] = raw[i]; break;   /* \\ \" \' and unknown: the character itself */
+                }
+            } else {
+                buf[n++] = raw[i];
+            }
+        }
+        buf[n] = '\0';
+        uint32_t idx = nvm_add_string(cg->module, buf, (uint32_t)n);
+        free(buf);
         emit_op(cg, OP_PUSH_STR, idx);
         break;
     }
